@@ -112,7 +112,12 @@ def poe_space(m, slist, theta):
     t = np.eye(4)
     slist = np.asarray(slist, dtype=float)
     for i in range(slist.shape[1]):
-        t = t @ expm(hat6(slist[:, i]) * float(theta[i]))
+        if abs(float(theta[i])) > 50.0:
+            # a joint angle of many turns (free solvers return such vectors): scaling-and-squaring loses ~eps * 2^k there,
+            # the closed form with the library-independent sin/cos of the large argument does not
+            t = t @ se3_exp(slist[:, i] * float(theta[i]))
+        else:
+            t = t @ expm(hat6(slist[:, i]) * float(theta[i]))
     return t @ np.asarray(m, dtype=float)
 
 
